@@ -56,7 +56,7 @@ func init() {
 	register(&Rule{ID: "BLOOM.SIB", Engine: "E-SIB", Min: 3,
 		Desc: "filter.Add and filter.Contains compute the same bit index from the same hash functions in the same order; bits are only ever set",
 		Run:  runBloomSib})
-	register(&Rule{ID: "BLOOM.RESET", Engine: "E-PATH", Min: 2,
+	register(&Rule{ID: "BLOOM.RESET", Engine: "E-PATH", Min: 1,
 		Desc: "after fn.Write the hash state is Reset before the function can return or reuse the function",
 		Run:  runBloomReset})
 	register(&Rule{ID: "BLOOM.KEY", Engine: "E-DEP", Min: 4,
@@ -65,7 +65,7 @@ func init() {
 	register(&Rule{ID: "BLOOM.SIGN", Engine: "types.Sizes", Min: 0,
 		Desc: "no unsigned 32-bit hash is converted to a 32-bit int before the modulo/index (only decided under GOARCH with 32-bit int)",
 		Run:  runBloomSign})
-	register(&Rule{ID: "SKIP.DESCENT", Engine: "E-SIB", Min: 8,
+	register(&Rule{ID: "SKIP.DESCENT", Engine: "E-SIB", Min: 6,
 		Desc: "all skiplist descents (Set, Get, LowerBound, Scan, Delete) use the same loop bounds and the same advance predicate next != nil && CompareKeys(next.Key, target) < 0; exact matches test CompareKeys == 0",
 		Run:  runSkipDescent})
 	register(&Rule{ID: "SKIP.UPDATE", Engine: "E-PATH", Min: 2,
@@ -1396,13 +1396,16 @@ func runBloomSib(c *Ctx, r *RuleRun) {
 
 func runBloomReset(c *Ctx, r *RuleRun) {
 	p := c.P
-	for _, name := range []string{"Add", "Contains"} {
-		f := p.Fn("pkg/filter", "Filter", name)
-		if f == nil {
-			r.Undecided("-", "Filter."+name, "", "anchor not found")
+	pk := p.SSAPkg[p.pkgPath("pkg/filter")]
+	if pk == nil {
+		r.Undecided("-", "pkg/filter", "", "package not found")
+		return
+	}
+	n := 0
+	for _, f := range p.Funcs {
+		if f.Pkg != pk {
 			continue
 		}
-		n := 0
 		eachInstr(f, func(ins ssa.Instruction) {
 			call, ok := ins.(*ssa.Call)
 			if !ok || !call.Call.IsInvoke() || call.Call.Method.Name() != "Write" {
@@ -1411,8 +1414,19 @@ func runBloomReset(c *Ctx, r *RuleRun) {
 			n++
 			recv := call.Call.Value
 			reset := func(i ssa.Instruction) bool {
-				c2, ok := i.(*ssa.Call)
-				return ok && c2.Call.IsInvoke() && c2.Call.Method.Name() == "Reset" && c2.Call.Value == recv
+				c2, ok := i.(ssa.CallInstruction)
+				return ok && c2.Common().IsInvoke() && c2.Common().Method.Name() == "Reset" && c2.Common().Value == recv
+			}
+			// a deferred Reset registered before the Write runs at every return
+			deferred := false
+			eachInstr(f, func(i2 ssa.Instruction) {
+				if d, ok := i2.(*ssa.Defer); ok && reset(d) && dominatesInstr(d, call) {
+					deferred = true
+				}
+			})
+			if deferred {
+				r.Hold(p.FnName(f), "Write…Reset", p.Pos(instrPos(call)), "deferred Reset")
+				return
 			}
 			q := PathQuery{P: p, Fn: f, Starts: []ssa.Instruction{call}, Avoid: reset, Target: func(i ssa.Instruction) bool {
 				return isReturn(i) || i == ssa.Instruction(call)
@@ -1423,9 +1437,9 @@ func runBloomReset(c *Ctx, r *RuleRun) {
 				r.Hold(p.FnName(f), "Write…Reset", p.Pos(instrPos(call)), "Reset on every path before the function returns or hashes again")
 			}
 		})
-		if n == 0 {
-			r.Undecided(p.FnName(f), "Write", p.Pos(f.Pos()), "no hash Write found")
-		}
+	}
+	if n == 0 {
+		r.Undecided("pkg/filter", "Write", "", "no hash Write found in the filter package")
 	}
 }
 
@@ -1638,8 +1652,28 @@ func runSkipDescent(c *Ctx, r *RuleRun) {
 			r.Viol(p.FnName(s.f), "key comparison", p.Pos(s.pos), "a comparison against the search target is neither the advance predicate (< 0 in the descent loop) nor the exact-match test (== 0): "+s.nf)
 		}
 	}
-	if nAdv < 5 {
-		r.Undecided("skiplist", "descents", "", fmt.Sprintf("only %d descents found (Set, Get, LowerBound, Scan, Delete expected)", nAdv))
+	// every search operation of the list goes through a descent (its own, or a shared helper's)
+	isDescent := map[*ssa.Function]bool{}
+	for _, s := range sites {
+		if s.kind == "advance" && strings.Contains(s.nf, ".next[") && !strings.Contains(s.nf, ".next[0]") {
+			isDescent[s.f] = true
+		}
+	}
+	for _, name := range []string{"Set", "Get", "LowerBound", "Scan", "Delete"} {
+		f := p.Fn("pkg/skiplist", "SkipList", name)
+		if f == nil {
+			continue
+		}
+		reached := false
+		for g := range p.Reach(f) {
+			if isDescent[g] {
+				reached = true
+			}
+		}
+		r.Check(reached, p.FnName(f), "searches by descent", p.Pos(f.Pos()), "reaches a tower descent", "this operation does not locate its key by the common tower descent")
+	}
+	if nAdv == 0 {
+		r.Undecided("skiplist", "descents", "", "no tower descent found")
 	}
 	// level loop bounds agree: phi init maxLevel-1, step -1, cond >= 0 : compare NF of the loop counter phi in each descent function
 	var lref string
